@@ -59,6 +59,8 @@ def main(argv):
                             dig["strs"].append("printer:" + type(e).__name__)
                     else:
                         dig["steps"].append("R:" + type(r.exc).__name__)
+                        if variant.get("keep_text"):
+                            dig.setdefault("errors", []).append(str(r.exc)[:300])
                 try:
                     from exo.API import compile_procs_to_strings
 
